@@ -791,13 +791,17 @@ class ECP5:
                 def fb_ok(d):
                     return K % d == 0 and 1 <= K // d <= fmax
                 first = [iv[0] for iv in ivs]
+                # the helper takes the first divider its own (boundary-inclusive, double precision) test accepts; when that
+                # could be one below the first clearly valid divider, the helper's choice is not predictable: not 'findable'
+                loose = [max(L["clko"][0], int(math.ceil(vco / (f * (1 + m + FSLACK))))) for f, p, m in outs]
+                predictable = loose == first
                 cand = []
                 if nout < L["nmax"]:
                     for d in range(1, min(K, cmax) + 1):
                         if fb_ok(d):
                             cand.append(("findable", {"clki": clki, "clkfb": K // d, "fbi": nout, "d": first + [d]}))
                             break
-                for n in range(nout):
+                for n in range(nout if predictable else 0):
                     if fb_ok(first[n]):
                         cand.append(("findable" if (n >= 1 or nout < L["nmax"]) else "clkfb0",
                                      {"clki": clki, "clkfb": K // first[n], "fbi": n, "d": list(first)}))
